@@ -501,6 +501,8 @@ class Check:
         for n in self.notes:
             print('note: ' + n)
         rc = 0
+        import shutil
+        shutil.rmtree(os.path.join(VERIF, 'replays', self.prop), ignore_errors=True)
         if self.violations:
             os.makedirs(os.path.join(VERIF, 'replays', self.prop), exist_ok=True)
             with open(os.path.join(VERIF, 'replays', self.prop, '_summary.json'), 'w') as f:
